@@ -483,7 +483,7 @@ open Dcg.Model.FieldStr Dcg.Proofs.FieldStr in
 and `Pet`; `Field` is imported, `Pet` is the factory's class. With `use_annotated` the same state
 writes `Annotated[…, Field(alias='x')]`: the factory is not written at all. -/
 example :
-    let s : Pyd := { required := false, nullable := false, useAnnotated := false, useDefaultKwarg := false, otherArgs := true, defaultNotNone := true, extrasFactory := none, modelFactory := some ['P', 'e', 't'] }
+    let s : Pyd := { required := false, nullable := false, useAnnotated := false, useDefaultKwarg := false, otherArgs := true, keyBeforeFactory := true, defaultNotNone := true, extrasFactory := none, modelFactory := some ['P', 'e', 't'] }
     Pyd.str s = ⟨.call .factory, [Dcg.Model.FieldText.nField, ['P', 'e', 't']]⟩ ∧
     Pyd.imports s = [Dcg.Model.FieldText.nField] ∧
     Pyd.memberNames { s with useAnnotated := true } = [Dcg.Model.FieldText.nAnnotated, Dcg.Model.FieldText.nField] ∧
